@@ -7,7 +7,7 @@
 EXTENDS Discovery, Json, TLC
 CONSTANTS Mode, MaxLen, DoEmit
 VARIABLE lst
-Names == <<<<97, 46, 115, 109>>, <<65, 46, 83, 77>>, <<98, 46, 83, 109>>, <<97, 46, 115, 115, 99>>, <<66, 46, 83, 83, 67>>, <<99, 46, 115, 109, 46, 111, 108, 100>>, <<100, 46, 115, 115, 99, 97>>, <<115, 109>>, <<101, 46, 112, 110, 103>>, <<102, 46, 111, 103, 103>>>>
+Names == <<<<97, 46, 115, 109>>, <<65, 46, 83, 77>>, <<98, 46, 83, 109>>, <<97, 46, 115, 115, 99>>, <<66, 46, 83, 83, 67>>, <<99, 46, 115, 109, 46, 111, 108, 100>>, <<100, 46, 115, 115, 99, 97>>, <<115, 109>>, <<101, 46, 112, 110, 103>>, <<102, 46, 111, 103, 103>>, <<46, 95, 97, 46, 83, 77>>, <<46, 115, 115, 99>>>>
 ANames == <<<<98, 97, 110, 110, 101, 114, 46, 112, 110, 103>>, <<120, 98, 110, 46, 112, 110, 103>>, <<98, 110, 46, 116, 120, 116>>, <<66, 65, 78, 78, 69, 82, 46, 80, 78, 71>>, <<98, 110, 120, 46, 112, 110, 103>>, <<106, 107, 95, 97, 46, 112, 110, 103>>, <<97, 106, 107, 95, 46, 112, 110, 103>>, <<97, 45, 99, 100, 46, 112, 110, 103>>, <<97, 45, 99, 100, 120, 46, 112, 110, 103>>, <<115, 111, 110, 103, 46, 111, 103, 103>>, <<115, 111, 110, 103, 46, 111, 103, 120>>, <<98, 103, 46, 106, 112, 103>>, <<120, 32, 99, 100, 116, 105, 116, 108, 101, 32, 121, 46, 103, 105, 102>>, <<105, 109, 103>>, <<118, 46, 50, 32, 98, 110, 46, 112, 110, 103>>, <<115, 111, 110, 103, 98, 110, 46, 111, 108, 100, 46, 112, 110, 103>>, <<98, 97, 110, 110, 101, 114, 45, 98, 103, 46, 112, 110, 103>>, <<106, 107, 95, 97, 108, 98, 117, 109, 98, 103, 46, 106, 112, 103>>, <<66, 97, 110, 110, 101, 114, 46, 79, 71, 71>>, <<67, 111, 118, 101, 114, 32, 91, 72, 68, 93, 46, 112, 110, 103>>, <<99, 111, 118, 101, 114, 120, 46, 112, 110, 103>>>>
 ImgNames == <<<<122, 46, 112, 110, 103>>, <<97, 46, 80, 78, 71>>, <<109, 46, 106, 112, 103>>, <<98, 46, 106, 112, 101, 103>>, <<99, 46, 103, 105, 102>>, <<100, 46, 98, 109, 112>>, <<114, 101, 97, 100, 109, 101, 46, 116, 120, 116>>, <<112, 97, 99, 107, 46, 112, 110, 103, 46, 98, 97, 107>>>>
 PackName == <<77, 121, 32, 80, 97, 99, 107>>
